@@ -147,8 +147,10 @@ def run_state_case(ctx: Optional[Ctx], spec: Dict[str, Any], idx: int = 0):
         real.close()
 
 
-def run_doc_case(docp: Dict[str, Any]):
-    """A hand-made (legacy / odd) document: write it, load it with the real code."""
+def run_doc_case(docp: Dict[str, Any], kind: str = "damaged"):
+    """A hand-made (legacy / respelled / damaged) document: write it, load it with the real code.
+    `kind` says how it was derived from a really persisted file: "legacy" and "current" documents
+    differ from one only by missing optional members / respelled uuid keys, so they must load."""
     holder = c06.Real()
     try:
         with open(holder.path, "w", encoding="utf8") as fh:
@@ -158,6 +160,9 @@ def run_doc_case(docp: Dict[str, Any]):
         if fresh is None:
             impl = {"err": True}
             loaded = None
+            if kind in ("legacy", "current"):
+                fail = ("C14:legacy-load-failed" if kind == "legacy" else "C14:load-failed",
+                        f"a well-formed {kind} state file (members {sorted(docp)}) failed to load: {err}")
         else:
             try:
                 loaded = full_state(fresh)
@@ -236,6 +241,52 @@ def key_spell(rng, s: str) -> str:
     return [s, s.upper(), "{" + s + "}", "urn:uuid:" + s, s.replace("-", "")][how]
 
 
+def respell_other(rng, k: str) -> str:
+    """Another accepted spelling of the uuid key `k` (different text, same controller)."""
+    canon = str(uuidlib.UUID(k))
+    for cand in (canon.upper(), "{" + canon + "}", canon.replace("-", ""), canon):
+        if cand != k:
+            return cand
+    return canon
+
+
+def derive_doc(rng, doc):
+    """Turn a really persisted document into a legacy / respelled / damaged one."""
+    mode = rng.random()
+    d = dict(doc)
+    kind = "legacy" if mode < 0.55 else "current" if mode < 0.75 else "damaged" if mode < 0.9 else "current"
+    if mode < 0.55:  # before permissions were stored
+        d.pop("client_properties", None)
+        if rng.random() < 0.5:
+            d.pop("client_uuid_to_bytes", None)
+        if rng.random() < 0.3:
+            d.pop("accessories_hash", None)
+        if rng.random() < 0.5:
+            d["paired_clients"] = [[key_spell(rng, k), v.upper() if rng.random() < 0.3 else v] for k, v in d["paired_clients"]]
+        if rng.random() < 0.15 and d["paired_clients"]:  # the same controller under two spellings
+            k, v = d["paired_clients"][0]
+            d["paired_clients"] = d["paired_clients"] + [[respell_other(rng, k), "00" + v]]
+    elif mode < 0.75:  # present-day file, keys respelled / maps reordered independently
+        d["client_properties"] = [[key_spell(rng, k), v] for k, v in reversed(d["client_properties"])]
+        if rng.random() < 0.5:
+            d.pop("client_uuid_to_bytes", None)
+    elif mode < 0.9:  # damaged files
+        dmg = rng.randrange(6)
+        if dmg == 0:
+            d.pop("mac", None)
+        elif dmg == 1:
+            d["private_key"] = d["private_key"][:-2]
+        elif dmg == 2:
+            d["public_key"] = "zz" + d["public_key"][2:]
+        elif dmg == 3 and d["paired_clients"]:
+            d["paired_clients"] = [["not-a-uuid", d["paired_clients"][0][1]]] + d["paired_clients"][1:]
+        elif dmg == 4 and d["paired_clients"]:
+            d["paired_clients"] = [[d["paired_clients"][0][0], "abc"]] + d["paired_clients"][1:]
+        else:
+            d.pop("config_version", None)
+    return d, kind
+
+
 def gen_docs(ctx: Ctx) -> List[Dict[str, Any]]:
     """Legacy and odd documents derived from really persisted ones."""
     rng = ctx.rng
@@ -252,38 +303,12 @@ def gen_docs(ctx: Ctx) -> List[Dict[str, Any]]:
             doc = real.file_doc()
         finally:
             real.close()
-        mode = rng.random()
-        d = dict(doc)
-        if mode < 0.55:  # before permissions were stored
-            d.pop("client_properties", None)
-            if rng.random() < 0.5:
-                d.pop("client_uuid_to_bytes", None)
-            if rng.random() < 0.3:
-                d.pop("accessories_hash", None)
-            if rng.random() < 0.5:
-                d["paired_clients"] = [[key_spell(rng, k), v.upper() if rng.random() < 0.3 else v] for k, v in d["paired_clients"]]
-            if rng.random() < 0.15 and d["paired_clients"]:  # the same controller under two spellings
-                k, v = d["paired_clients"][0]
-                d["paired_clients"] = d["paired_clients"] + [[k.upper() if k.upper() != k else "{" + k + "}", "00" + v]]
-        elif mode < 0.75:  # present-day file, keys respelled / maps reordered independently
-            d["client_properties"] = [[key_spell(rng, k), v] for k, v in reversed(d["client_properties"])]
-            if rng.random() < 0.5:
-                d.pop("client_uuid_to_bytes", None)
-        elif mode < 0.9:  # damaged files
-            dmg = rng.randrange(6)
-            if dmg == 0:
-                d.pop("mac", None)
-            elif dmg == 1:
-                d["private_key"] = d["private_key"][:-2]
-            elif dmg == 2:
-                d["public_key"] = "zz" + d["public_key"][2:]
-            elif dmg == 3 and d["paired_clients"]:
-                d["paired_clients"] = [["not-a-uuid", d["paired_clients"][0][1]]] + d["paired_clients"][1:]
-            elif dmg == 4 and d["paired_clients"]:
-                d["paired_clients"] = [[d["paired_clients"][0][0], "abc"]] + d["paired_clients"][1:]
-            else:
-                d.pop("config_version", None)
-        docs.append(d)
+        try:
+            d, kind = derive_doc(rng, doc)
+        except Exception:  # noqa: BLE001  (the saved file does not have the expected members: the state cases report that)
+            ctx.stats.hit("outcome", "doc/underivable-from-saved-file")
+            continue
+        docs.append((d, kind))
     return docs
 
 
@@ -324,17 +349,17 @@ def run(ctx: Ctx):
             st.hit("outcome", "state/recorded-ids-of-unpaired-controllers")
     docs = gen_docs(ctx)
     dlines, dimpls = [], []
-    for d in docs:
-        line, impl, fail = run_doc_case(d)
+    for d, kind in docs:
+        line, impl, fail = run_doc_case(d, kind)
         dlines.append(line)
         dimpls.append(impl)
         if fail:
-            ctx.fail(fail[0], fail[1], {"kind": "doc", "doc": d})
+            ctx.fail(fail[0], fail[1], {"kind": "doc", "doc": d, "doc_kind": kind})
             st.hit("outcome", "oracle:" + fail[0])
         legacy = "client_properties" not in d
         st.case(["d", sorted(d), len(d.get("paired_clients") or []), "err" in impl], legacy or "err" in impl or len(d.get("paired_clients") or []) > 0)
         st.hit("op", "load-document")
-        st.hit("outcome", "doc/" + ("load-error" if "err" in impl else "legacy" if legacy else "current"))
+        st.hit("outcome", f"doc/{kind}/" + ("load-error" if "err" in impl else "loaded"))
 
     model = run_model_parallel("C14", lines + dlines)
     for ln, m, impl in zip(lines, model[: len(lines)], impls):
@@ -352,7 +377,7 @@ def run(ctx: Ctx):
             ctx.disagree("encoder/load-document", {"doc": _short(ln["doc"])}, _short(m), _short(impl))
     st.sample({"state": _short_state(lines[1]["state"]), "file_tree": _short(impls[1]["doc"]), "model_agrees": canon_model_roundtrip(model[1]) == impls[1]})
     st.sample({"state": _short_state(lines[-1]["state"]), "model_agrees": canon_model_roundtrip(model[len(lines) - 1]) == impls[-1]})
-    st.sample({"legacy_doc_members": sorted(docs[0]), "impl": _short(dimpls[0]), "model_agrees": model[len(lines)] == dimpls[0]})
+    st.sample({"legacy_doc_members": sorted(docs[0][0]), "impl": _short(dimpls[0]), "model_agrees": model[len(lines)] == dimpls[0]})
 
 
 def _short_state(s):
@@ -373,10 +398,10 @@ def search(ctx: Ctx):
             fail = run_state_case(ctx, sp, i)[2]
             if fail:
                 ctx.fail(fail[0], fail[1], {"kind": "state", "spec": sp, "via_add_accessory": i % 16 == 0})
-        for d in gen_docs(ctx)[:800]:
-            fail = run_doc_case(d)[2]
+        for d, kind in gen_docs(ctx)[:800]:
+            fail = run_doc_case(d, kind)[2]
             if fail:
-                ctx.fail(fail[0], fail[1], {"kind": "doc", "doc": d})
+                ctx.fail(fail[0], fail[1], {"kind": "doc", "doc": d, "doc_kind": kind})
     finally:
         ctx.tier = saved
 
@@ -387,7 +412,7 @@ def replay(ctx: Ctx, r):
         print("state:", _short_state(line["state"]))
         print("loaded:", "load failed" if impl["loaded"] is None else _short_state(impl["loaded"]))
     elif r.get("kind") == "doc":
-        line, impl, fail = run_doc_case(r["doc"])
+        line, impl, fail = run_doc_case(r["doc"], r.get("doc_kind", "damaged"))
         print("document members:", sorted(r["doc"]), "->", _short(impl))
     else:
         print("replay file records a broken proof obligation / correspondence stream, not an input:")
